@@ -5,7 +5,7 @@ from vlib import core, cli
 
 META = {
     "level": "proof",
-    "technique": "Coq theorems on the Gallina model of the writer contexts (PHSF printed without hash, one disjoint random-tape segment per context, output a function of header fields, PHSF, IV and ciphertext); model run against every library writer kind and the CLI with the random tape read back from the archives; byte scans of the produced archives for password, derived key (recomputed independently) and plaintext",
+    "technique": "Coq theorems on the Gallina model of the writer contexts (PHSF printed without hash, one disjoint random-tape segment per context, output a function of header fields, PHSF, IV and ciphertext); model run against every library writer kind and the CLI with the random tape read back from the archives; byte scans of the produced archives for password, derived key (recomputed independently) and plaintext The PHC-codec premise of C08_phsf_has_no_hash is discharged for the executable codec (Props/C16_phc.v: phsf_has_no_hash_x, phsf_parses_to_record).",
     "level_text": "Structural theorems about the model of get_writer_context and the writers (Coq, closed under the global context): the recorded PHC string has no hash field, every entry / solid stream consumes its own disjoint tape segment, the archive bytes factor through the ciphertext. The model is tied to the code by differential execution (PHSF and IV of every context equal to the model's for the tape read back); the leak scans and the pairwise distinctness of all (salt, IV) of a run are evaluated directly on library- and CLI-written archives.",
     "level_note": "Partial by nature: that AES/Camellia output reveals nothing about plaintext or key and that ChaCha20 seeded from OS entropy does not repeat are outside any model of this code; the theorems exclude the plumbing failures (full PHC string written, constant IV, reused context). Trusted: Coq kernel + vm_compute; extraction and the OCaml driver; harness/src/bin/kdf.rs, refdec.rs and the primitive crates.",
 }
